@@ -1175,6 +1175,8 @@ func (s *SelectStatement) Clone() *SelectStatement {
 				RetentionPolicy: s.Target.Measurement.RetentionPolicy,
 				Name:            s.Target.Measurement.Name,
 				Regex:           CloneRegexLiteral(s.Target.Measurement.Regex),
+				IsTarget:        s.Target.Measurement.IsTarget,
+				SystemIterator:  s.Target.Measurement.SystemIterator,
 			},
 		}
 	}
